@@ -135,6 +135,12 @@ class Driver(GenericAdapter):
                 s.clear()
             elif n in ("sort", "sort_failing"):
                 s.sort()
+            elif n == "sort_rev":
+                s.sort(reverse=True)
+            elif n == "sort_key":
+                s.sort(key=lambda e_: dec(e_) % 3)
+            elif n == "sort_key_rev":
+                s.sort(key=lambda e_: dec(e_) % 3, reverse=True)
             elif n == "reverse":
                 s.reverse()
             elif n in ("update", "intersection_update", "difference_update", "symmetric_difference_update"):
@@ -356,12 +362,12 @@ def record(ntraces, length, seed, nitems):
                 else:
                     op = {"op": k, "x": 0, "ops": [[rng.randint(1, nitems) for _ in range(rng.randint(0, 4))] for _ in range(rng.randint(1, 2))]}
             else:
-                op = {"op": rng.choice(["sort", "reverse", "clear"] if rng.random() < 0.2 else ["reverse", "sort"]), "x": 0, "ops": []}
+                op = {"op": rng.choice(["sort", "reverse", "clear"] if rng.random() < 0.2 else ["reverse", "sort", "sort_rev", "sort_key", "sort_key_rev"]), "x": 0, "ops": []}
             if not queue and rng.random() < 0.02 and n >= 3:
                 op = {"op": "add", "x": ODD_ITEM, "ops": []}
                 queue.append({"op": "sort", "x": 0, "ops": []})
                 queue.append({"op": rng.choice(["remove", "discard"]), "x": ODD_ITEM, "ops": []})
-            if op["op"] == "sort" and K(ODD_ITEM) in s and len(s) > 1:
+            if op["op"] in ("sort", "sort_rev") and K(ODD_ITEM) in s and len(s) > 1:
                 op = {"op": "sort_failing", "x": 0, "ops": []}      # the comparison raises: TypeError, and the set stays a set
             pure = False
             if not queue and rng.random() < 0.07:
